@@ -159,6 +159,18 @@ def run(ctx):
     import scope
     scope.closed_world(C, P, 'C04-PAIR-index')
     must_identifiable(C, P)
+    # loading: a path that occurs twice within ONE file is detected (the bulk insert of load_buffer_internal tolerates an
+    # existing entry of the same element kind, which is right for a second file but hides a duplicate inside the file)
+    pe_ = P.get('ArxmlParser::parse_element')
+    seen_set = False
+    for x in P.with_closures(pe_) + P.with_closures(P.get('AutosarModel::load_buffer_internal')):
+        for pos, t in x.iter_calls():
+            if call_matches(t, r'(HashSet::<T, S.*>::(insert|contains)|HashMap::<K, V, S.*>::(contains_key|insert|entry)|IndexMap::<K, V, S>::(contains_key|insert|entry|insert_full))$'):
+                rp = E.recv_place(x, t)
+                if rp is not None and any(str(p_).startswith('.ArxmlParser.') for p_ in rp.get('p', [])):
+                    seen_set = True
+    C.check(seen_set, 'C04-MUST-unique', 'load|duplicate-path-within-one-file', 'the loader does not detect a path that occurs twice within one file: both elements stay in the model with the same AUTOSAR path and one index entry',
+            '%s:%d' % (pe_.file, pe_.line))
     C.rule('C04-DEV-merge-disjoint', 'a file merge never inserts an element that was already merged into its counterpart (two elements with one path): shared with C09-DEV-bonly')
     from c09 import dev_bonly
     dev_bonly(C, P, 'C04-DEV-merge-disjoint')
